@@ -12,9 +12,10 @@ What the model keeps of the code, including its defects:
   turns `requires` into a list of *dictionaries* `{"requirements": [{"name": …}]}`
 * on the way back `requires_converter` iterates those dictionaries' *keys*, so every non-empty requirement set
   comes back as the single requirement on a field called `requirements`              (D53)
-* `structure` copies the dictionary only one level deep; `python.define` stores the field objects and the
-  `function` field in the nested `inputs` dictionary, so a second `structure` of the same dictionary is refused
-  (`Unrecognised input names {'function'}`)                                          (D54)
+* `structure` works on a deep copy of the dictionary (since the repair of D54, commit 8e1662de): it is a pure
+  function of the dictionary.  The former shallow-copy behaviour (python's `define` left its field objects and the
+  `function` field in the caller's nested `inputs`, so a second `structure` of the same dictionary was refused) is
+  kept as `structureDictShallow` for the record.
 -/
 namespace PydraModel.Roundtrip
 open PydraModel.Gen.FieldDefaults
@@ -121,12 +122,20 @@ structure Dict where
 
 def argTable (fl : Flavor) : Attrs := tableOf (fl.tag ++ ".arg")
 def outTable (fl : Flavor) : Attrs := tableOf (fl.tag ++ ".out")
+def outargTable : Attrs := tableOf "shell.outarg"
+
+/-- `ensure_field_objects`: an output dictionary with a `path_template` key becomes a `shell.outarg`, any other
+    one the flavour's `out` -/
+def outTableFor (fl : Flavor) (isOutarg : Bool) : Attrs := if isOutarg then outargTable else outTable fl
+
+/-- the field is a `shell.outarg` (it has the attribute `path_template`) -/
+def Field.isOutarg (f : Field) : Bool := (f.attrs.map (·.1)).contains "path_template"
 
 /-- `unstructure` -/
 def unstructureDef (d : Def) : Dict :=
   { flavor := d.flavor, name := d.name, executor := d.executor,
     inputs := d.inputs.map (fun f => (f.name, .raw (unstructureField (argTable d.flavor) f))),
-    outputs := d.outputs.map (fun f => (f.name, .raw (unstructureField (outTable d.flavor) f))),
+    outputs := d.outputs.map (fun f => (f.name, .raw (unstructureField (outTableFor d.flavor f.isOutarg) f))),
     xor := d.xor }
 
 inductive Err where
@@ -140,6 +149,11 @@ inductive Err where
 
 def entryField (T : Attrs) (n : String) : Entry → Except Err Field
   | .raw kv => .ok (structureField T n kv)
+  | .obj f => if f.name = n then .ok f else .error .nameMismatch
+
+/-- an entry of the `outputs` dictionary: the class is chosen by the presence of the key `path_template` -/
+def outEntryField (fl : Flavor) (n : String) : Entry → Except Err Field
+  | .raw kv => .ok (structureField (outTableFor fl ((kv.map (·.1)).contains "path_template")) n kv)
   | .obj f => if f.name = n then .ok f else .error .nameMismatch
 
 def Field.get (f : Field) (k : String) : Val := (f.attrs.lookup k).getD .none
@@ -175,13 +189,23 @@ def assignPositions (fs : List Field) : List Field :=
   let free := ((List.range numArgs).map (fun (i : Nat) => Int.ofNat i)).filter (fun i => !used.contains i)
   assignGo fs free
 
+/-- put the (re-positioned) outargs back into the list of outputs, in order -/
+def mergeOutargs : List Field → List Field → List Field
+  | [], _ => []
+  | f :: fs, oas =>
+    if f.isOutarg then
+      match oas with
+      | o :: os => o :: mergeOutargs fs os
+      | [] => f :: mergeOutargs fs []
+    else f :: mergeOutargs fs oas
+
 def baseInputs : Flavor → List String
   | .python => ["function"]
   | .shell => ["executable", "append_args"]
 
 /-- `Task._check_arg_refs` -/
 def refsOK (fl : Flavor) (inputs outputs : List Field) (xor : List (List (Option String))) : Bool :=
-  let names := inputs.map (·.name) ++ baseInputs fl
+  let names := inputs.map (·.name) ++ (outputs.filter Field.isOutarg).map (·.name) ++ baseInputs fl
   (inputs ++ outputs).all (fun f => f.reqNames.all (fun n => names.contains n)) &&
   xor.all (fun g => g.all (fun x => match x with | some n => names.contains n | Option.none => true))
 
@@ -198,32 +222,42 @@ def mapE {α β ε} (g : α → Except ε β) : List α → Except ε (List β)
       | .error e => .error e
       | .ok ys => .ok (y :: ys)
 
-/-- the dictionary as `python.define` leaves it: `dct = copy(task_class_dict)` in `structure` is shallow, and
-    `define` stores its field objects and the `function` field in the caller's nested dictionaries -/
+/-- `structure` (pure: it works on `deepcopy(task_class_dict)`) -/
+def structureDict (dct : Dict) : Except Err Def :=
+  -- python: `extract_function_inputs_and_outputs` refuses input names that are not parameters of the function
+  if dct.flavor = .python ∧ (dct.inputs.map (·.1)).contains "function" = true then .error .unrecognisedInput else
+  match mapE (fun ne => entryField (argTable dct.flavor) ne.1 ne.2) dct.inputs with
+  | .error e => .error e
+  | .ok inputs0 =>
+    match mapE (fun ne => outEntryField dct.flavor ne.1 ne.2) dct.outputs with
+    | .error e => .error e
+    | .ok outputs0 =>
+      -- `shell.define`: the outargs join the inputs, then every unpositioned one gets the next free slot
+      let positioned := match dct.flavor with
+        | .shell => assignPositions (inputs0 ++ outputs0.filter Field.isOutarg)
+        | .python => inputs0 ++ outputs0.filter Field.isOutarg
+      let inputs := positioned.take inputs0.length
+      let outputs := mergeOutargs outputs0 (positioned.drop inputs0.length)
+      if refsOK dct.flavor inputs outputs dct.xor = true then
+        .ok { flavor := dct.flavor, name := dct.name, executor := dct.executor, inputs, outputs, xor := dct.xor }
+      else .error .unrecognisedRef
+
+/-! #### the behaviour before the repair of D54 (`dct = copy(task_class_dict)`, shallow) — for the record -/
+
+/-- the caller's dictionary as `python.define` used to leave it: field objects and the `function` field stored in the
+    nested dictionaries -/
 def pythonLeftovers (dct : Dict) (inputs outputs : List Field) : Dict :=
   { dct with
     inputs := inputs.map (fun f => (f.name, Entry.obj f)) ++
               [("function", Entry.obj { name := "function", attrs := [] })],
     outputs := outputs.map (fun f => (f.name, Entry.obj f)) }
 
-/-- `structure`: the recreated definition, and the dictionary as the call leaves it -/
-def structureDict (dct : Dict) : Except Err (Def × Dict) :=
-  -- python: `extract_function_inputs_and_outputs` refuses input names that are not parameters of the function
-  if dct.flavor = .python ∧ (dct.inputs.map (·.1)).contains "function" = true then .error .unrecognisedInput else
-  match mapE (fun ne => entryField (argTable dct.flavor) ne.1 ne.2) dct.inputs with
-  | .error e => .error e
-  | .ok inputs0 =>
-    match mapE (fun ne => entryField (outTable dct.flavor) ne.1 ne.2) dct.outputs with
-    | .error e => .error e
-    | .ok outputs =>
-      let inputs := match dct.flavor with
-        | .shell => assignPositions inputs0
-        | .python => inputs0
-      if refsOK dct.flavor inputs outputs dct.xor = true then
-        .ok ({ flavor := dct.flavor, name := dct.name, executor := dct.executor, inputs, outputs, xor := dct.xor },
-             match dct.flavor with
-             | .shell => dct          -- `shell.define` works on a copy of the nested dictionaries
-             | .python => pythonLeftovers dct inputs outputs)
-      else .error .unrecognisedRef
+/-- `structure` with the shallow copy: the recreated definition, and the caller's dictionary as the call left it
+    (`shell.define` worked on a copy of the nested dictionaries anyway) -/
+def structureDictShallow (dct : Dict) : Except Err (Def × Dict) :=
+  (structureDict dct).map (fun d =>
+    (d, match dct.flavor with
+        | .shell => dct
+        | .python => pythonLeftovers dct d.inputs d.outputs))
 
 end PydraModel.Roundtrip
